@@ -45,7 +45,7 @@ theorem onArgument_step (v : Visitor) (reg : List (String × Addr)) (h : Heap) (
       split
       · exact StepImp.refl chk h
       · rename_i t ht
-        exact write_arg_ty chk h a g t hg (hc _ (healed_ok reg g.ty t ht))
+        exact write_arg_ty chk h a g t hg (hc _ (healed_ok reg g.ty t ht)) (healed_sameNames reg g.ty t ht)
     | vis p => exact StepImp.refl chk h
     | sdir d w => exact StepImp.refl chk h
 
@@ -94,7 +94,7 @@ theorem onInputField_step (v : Visitor) (reg : List (String × Addr)) (h : Heap)
       split
       · exact StepImp.refl chk h
       · rename_i t ht
-        exact write_arg_ty chk h a g t hg (hc _ (healed_ok reg g.ty t ht))
+        exact write_arg_ty chk h a g t hg (hc _ (healed_ok reg g.ty t ht)) (healed_sameNames reg g.ty t ht)
     | vis p => simp only; split <;> exact StepImp.refl chk h
     | sdir d w => exact StepImp.refl chk h
 
@@ -153,7 +153,7 @@ theorem healFieldType_step (reg : List (String × Addr)) (h : Heap) (a : Addr) :
     split
     · exact StepImp.refl chk h
     · rename_i t ht
-      exact write_field_ty chk h a f t hf (hc _ (healed_ok reg f.ty t ht))
+      exact write_field_ty chk h a f t hf (hc _ (healed_ok reg f.ty t ht)) (healed_sameNames reg f.ty t ht)
 
 theorem onField_step (v : Visitor) (reg : List (String × Addr)) (tn : String) (h : Heap) (a : Addr) :
     StepAll v reg h (onField v reg tn h a).1 := by
@@ -260,6 +260,6 @@ theorem onField_est (v : Visitor) (reg : List (String × Addr)) (tn : String) (c
       subst e
       refine (fieldShape_iff _ _ _).mpr ⟨{ f2 with ty := t }, readField_write_self _ _ _ (readField_lt h2), healed_ok reg f2.ty t ht, ?_⟩
       intro c hcm
-      exact argShape_keep (write_field_ty _ _ _ f2 t h2 (healed_ok reg f2.ty t ht)) c (a2 c hcm)
+      exact argShape_keep (write_field_ty _ _ _ f2 t h2 (healed_ok reg f2.ty t ht) (healed_sameNames reg f2.ty t ht)) c (a2 c hcm)
 
 end PyGql.Heap.Own
